@@ -334,20 +334,12 @@ theorem chooseCompression_eq (t : Huffman.Table) (p : List UInt8) (hp : p.length
     have : ¬ (Huffman.compress t false p).length < p.length := by omega
     simp [this]
 
-theorem writeChunks_eq (t : Huffman.Table) (ack : Nat) (tok : Option Token) (rr : Bool) (nc : Nat)
-    (payload : List UInt8) (cap : Nat) (ha : ack < 1024)
-    (hl : payload.length + (tokBytes tok).length ≤ Tw.Gen.Packet6.READ_PAYLOAD_LIMIT)
-    (hcap : Tw.Gen.Packet6.MAX_PACKETSIZE ≤ cap) :
-    writeChunks t ack tok rr nc payload cap =
-      .ok (ofNat3 (chunkFlags rr (useComp t (payload ++ tokBytes tok)) * 16 + ack / 256, ack % 256, nc) ++
-            (if useComp t (payload ++ tokBytes tok) then Huffman.compress t false (payload ++ tokBytes tok)
-             else payload ++ tokBytes tok)) := by
-  have hL : Tw.Gen.Packet6.READ_PAYLOAD_LIMIT = 1397 := by decide
+theorem writeChunksCore_eq (t : Huffman.Table) (ack : Nat) (rr : Bool) (nc : Nat) (p : List UInt8) (cap : Nat)
+    (ha : ack < 1024) (hpl : p.length ≤ 1397) (hcap : Tw.Gen.Packet6.MAX_PACKETSIZE ≤ cap) :
+    writeChunksCore t ack rr nc p cap =
+      .ok (ofNat3 (chunkFlags rr (useComp t p) * 16 + ack / 256, ack % 256, nc) ++
+            (if useComp t p then Huffman.compress t false p else p)) := by
   have hM : Tw.Gen.Packet6.MAX_PACKETSIZE = 1400 := by decide
-  unfold writeChunks
-  rw [tokenExtend_eq payload tok (by omega)]
-  generalize hpd : payload ++ tokBytes tok = p at *
-  have hpl : p.length ≤ 1397 := by rw [← hpd]; simp only [List.length_append]; omega
   unfold writeChunksCore
   simp only [chooseCompression_eq t p (by omega)]
   have hflags : chunkFlags rr (useComp t p) < 16 := by
@@ -373,6 +365,23 @@ theorem writeChunks_eq (t : Huffman.Table) (ack : Nat) (tok : Option Token) (rr 
     bw
     simp only [List.nil_append]
     rw [bufWrite_of_le (by simp only [ofNat3, List.length_cons, List.length_nil]; omega)]
+
+theorem writeChunks_eq (t : Huffman.Table) (ack : Nat) (tok : Option Token) (rr : Bool) (nc : Nat)
+    (payload : List UInt8) (cap : Nat) (ha : ack < 1024)
+    (hl : payload.length + (tokBytes tok).length ≤ Tw.Gen.Packet6.READ_PAYLOAD_LIMIT)
+    (hcap : Tw.Gen.Packet6.MAX_PACKETSIZE ≤ cap) :
+    writeChunks t ack tok rr nc payload cap =
+      .ok (ofNat3 (chunkFlags rr (useComp t (payload ++ tokBytes tok)) * 16 + ack / 256, ack % 256, nc) ++
+            (if useComp t (payload ++ tokBytes tok) then Huffman.compress t false (payload ++ tokBytes tok)
+             else payload ++ tokBytes tok)) := by
+  have hL : Tw.Gen.Packet6.READ_PAYLOAD_LIMIT = 1397 := by decide
+  have hT : Tw.Gen.Packet6.TOKEN_SIZE = 4 := by decide
+  have hB : TOKEN_BUFFER_CAP = 2048 := by decide
+  unfold writeChunks
+  rw [tokenExtend_eq payload tok (by omega),
+    writeChunksCore_eq t ack rr nc _ cap ha (by simp only [List.length_append]; omega) hcap]
+  simp only
+  rw [if_neg (by omega)]
 
 theorem rrOf_chunkFlags (rr comp : Bool) (ack nc : Nat) : rrOf ⟨chunkFlags rr comp, ack, nc⟩ = rr := by
   cases rr <;> cases comp <;>
@@ -496,5 +505,82 @@ theorem write_read_roundtrip (t : Huffman.Table) (hrt : HuffmanRoundTrip t) (p :
     obtain ⟨bs, hw, hlen, hr⟩ := v6_control_roundtrip t ack tok c ha hcl cap scap hcap hs
     refine ⟨bs, hw, hlen, _, hr, rfl, ?_⟩
     cases c <;> rfl
+
+/-! ### the silent truncation of `ConnectedPacket::write` -/
+
+theorem writeControl_ne_truncated (c : Control) (tok : Option Token) (ack cap : Nat) (bs : List UInt8) :
+    writeControl c tok ack cap ≠ .okTruncated bs := by
+  intro h
+  unfold writeControl at h
+  cases c <;> cases tok <;> simp only [bufWrite] at h <;>
+    (repeat' (first | (simp at h; done) | (split at h)))
+
+/-- `write` reports `okTruncated` exactly for a chunk packet with a token whose payload plus token exceed
+the 2048-byte `ArrayVec`, when the (truncated) packet fitted into the caller's buffer -/
+theorem write_okTruncated_iff (t : Huffman.Table) (p : Packet) (cap : Nat) (bs : List UInt8) :
+    write t p cap = .okTruncated bs ↔
+      ∃ ack tk rr nc payload, p = .connected ack (some tk) (.chunks rr nc payload) ∧
+        payload.length + Tw.Gen.Packet6.TOKEN_SIZE > TOKEN_BUFFER_CAP ∧
+        writeChunksCore t ack rr nc (tokenExtend payload (some tk)) cap = .ok bs := by
+  constructor
+  · intro h
+    match p, h with
+    | .connless payload, h =>
+      simp only [write, writeConnless] at h
+      split at h
+      · simp at h
+      · split at h
+        · simp at h
+        · split at h <;> simp at h
+    | .connected ack tok (.control c), h =>
+      exact absurd h (writeControl_ne_truncated c tok ack cap bs)
+    | .connected ack tok (.chunks rr nc payload), h =>
+      simp only [write, writeChunks] at h
+      split at h
+      · rename_i bs' hcore
+        split at h
+        · rename_i hcond
+          simp only [WriteResult.okTruncated.injEq] at h
+          subst h
+          cases tok with
+          | none => simp at hcond
+          | some tk => exact ⟨ack, tk, rr, nc, payload, rfl, hcond.2, hcore⟩
+        · simp at h
+      · rename_i r hne
+        -- the core never reports `okTruncated`
+        exfalso
+        have hcore : ∀ r, writeChunksCore t ack rr nc (tokenExtend payload tok) cap = r →
+            ∀ b, r ≠ .okTruncated b := by
+          intro r hr b hb
+          subst hr
+          unfold writeChunksCore at hb
+          simp only [bufWrite] at hb
+          repeat' (first | (simp at hb; done) | (split at hb))
+        exact hcore _ h bs rfl
+  · rintro ⟨ack, tk, rr, nc, payload, rfl, hlen, hcore⟩
+    simp only [write, writeChunks, hcore, Option.isSome_some, true_and, hlen, if_true]
+
+/-- what is lost: the 2048 bytes that are encoded are a proper prefix of payload ++ token -/
+theorem truncation_loses_data (payload : List UInt8) (tk : Token)
+    (h : payload.length + Tw.Gen.Packet6.TOKEN_SIZE > TOKEN_BUFFER_CAP) :
+    (tokenExtend payload (some tk)).length = TOKEN_BUFFER_CAP ∧
+    tokenExtend payload (some tk) ≠ payload ++ tk.toList := by
+  have hT : Tw.Gen.Packet6.TOKEN_SIZE = 4 := by decide
+  have hl : (tokenExtend payload (some tk)).length = TOKEN_BUFFER_CAP := by
+    simp only [tokenExtend, List.length_take, List.length_append, Token.toList, List.length_cons, List.length_nil]
+    omega
+  refine ⟨hl, ?_⟩
+  intro he
+  have := congrArg List.length he
+  rw [hl] at this
+  simp only [List.length_append, Token.toList, List.length_cons, List.length_nil] at this
+  omega
+
+/-- a `Valid` packet is never truncated -/
+theorem valid_not_truncated (t : Huffman.Table) (hrt : HuffmanRoundTrip t) (p : Packet) (hv : Valid p) (cap : Nat)
+    (hcap : Tw.Gen.Packet6.MAX_PACKETSIZE ≤ cap) (bs : List UInt8) : write t p cap ≠ .okTruncated bs := by
+  obtain ⟨bs', hw, _⟩ := write_read_roundtrip t hrt p hv cap cap hcap hcap
+  rw [hw]
+  simp
 
 end Tw.Packet6
